@@ -1,12 +1,15 @@
 /-
-  C17 — a tiny imperative semantics with three sources of values that are *not* functions of a
+  C17 — a tiny imperative semantics with four sources of values that are *not* functions of a
   call's arguments:
 
     * `seeded` : the generator obtained from the caller's seed  (`get_rng(seed)`, utils.py:710-729,
                  third branch: `random.Random(seed)`),
     * `global` : the process-global generator                   (`get_rng(None)` returns the
                  `random` module; `random.*`, `np.random.*`),
-    * `hash`   : the per-process string-hash order               (iteration order of a `set` of `str`).
+    * `hash`   : the per-process string-hash order               (iteration order of a `set` of `str`),
+    * `sched`  : the order in which the workers of an executor pool passed as `parallel=` finish
+                 (`concurrent.futures.as_completed`, `wait(.., FIRST_COMPLETED)`, `imap_unordered`);
+                 see `Model/Gather.lean` for what reads it and what does not.
 
   A program is a table of function bodies `FnId → Cmd σ`; bodies are built from arbitrary
   deterministic store transformers, draws from one of the three sources, sequencing, branching,
@@ -22,7 +25,7 @@ namespace Cotengra.Flow
 abbrev FnId := Nat
 
 inductive Src where
-  | seeded | global | hash
+  | seeded | global | hash | sched
 deriving DecidableEq, Repr, Inhabited
 
 /-- A generator: an infinite tape of values and a read position.  A seeded generator is a
@@ -44,12 +47,16 @@ structure Env (σ : Type) where
   seeded : Gen
   global : Gen
   hash : Nat
+  /-- completion orders of the pool's workers, one per gather (a tape like the global generator:
+      nothing is assumed about it) -/
+  sched : Gen
 
 /-- read one value from a source (the hash order is a constant of the process) -/
 def Env.read {σ : Type} (e : Env σ) : Src → Nat × Env σ
   | .seeded => let (v, g) := e.seeded.next; (v, { e with seeded := g })
   | .global => let (v, g) := e.global.next; (v, { e with global := g })
   | .hash => (e.hash, e)
+  | .sched => let (v, g) := e.sched.next; (v, { e with sched := g })
 
 inductive Cmd (σ : Type) where
   /-- any deterministic computation on the store -/
@@ -100,18 +107,19 @@ def Cmd.calls {σ : Type} : Cmd σ → List FnId
 /-! ## fact tables and the decision procedure -/
 
 /-- one row of the source-derived table: callees, "draws from the global generator",
-    "depends on the string-hash order" -/
+    "depends on the string-hash order", "consumes pool results in completion order" -/
 structure Facts where
   calls : List FnId
   rdGlobal : Bool
   rdHash : Bool
+  rdSched : Bool
 deriving Repr, BEq, DecidableEq, Inhabited
 
 /-- rows are addressed by position; an id outside the table is *tainted* (conservative) -/
 def getFacts (T : List Facts) (f : FnId) : Facts :=
   match T[f]? with
   | some x => x
-  | none => { calls := [], rdGlobal := true, rdHash := true }
+  | none => { calls := [], rdGlobal := true, rdHash := true, rdSched := true }
 
 /-- sets of rows are bit masks (`Nat`): membership and insertion are single bit operations, which
     the kernel evaluates with GMP arithmetic -- the closed `decide` obligation over the extracted
@@ -126,7 +134,7 @@ def closedClean (T : List Facts) (R : FSet) : Bool :=
   (List.range T.length).all fun f =>
     !R.testBit f ||
       (let x := getFacts T f
-       !x.rdGlobal && !x.rdHash && x.calls.all fun g => inSet T R g)
+       !x.rdGlobal && !x.rdHash && !x.rdSched && x.calls.all fun g => inSet T R g)
 
 /-- worklist search for the set of rows reachable from the frontier (only its *output* is
     trusted through `closedClean`, so no correctness proof of the search itself is needed) -/
@@ -157,7 +165,7 @@ def members (T : List Facts) (R : FSet) : List FnId := (List.range T.length).fil
 
 /-- tainted rows reachable from `f` (diagnostics for the driver / harness only) -/
 def taintedFrom (T : List Facts) (f : FnId) : List FnId :=
-  (members T (reachFrom T f)).filter fun g => let x := getFacts T g; x.rdGlobal || x.rdHash
+  (members T (reachFrom T f)).filter fun g => let x := getFacts T g; x.rdGlobal || x.rdHash || x.rdSched
 
 end Cotengra.Flow
 
